@@ -96,7 +96,7 @@ def required_counters(tier):
         "style.beartype": 200,
         "style.manual": 200,
         "sibling_structured.usable": 50, "keypath.cases": 40, "toplevel_structured_checks_judged": 200,
-        "sibling_structured.ambiguous": 30,
+        "sibling_structured.ambiguous": 30, "temporaries.checks": 100,
     }
 
 
@@ -389,6 +389,8 @@ def run_shard(rec, seed, shard, tier):
     if shard.get("i", 1) % 2 == 1:
         real.hostile_prelude(rec)  # a past: nothing the check decides may depend on it
         real.toplevel_probes(rec, None, "after the hostile prelude")
+    if shard["i"] % 4 == 1:
+        real.temporaries_probe(rec, "C16")  # short-lived values whose id() is handed on
     GT.ensure_registered()
     if shard["i"] == 0:
         run_keypath_cases(rec)
